@@ -405,8 +405,11 @@ func runC16(o *hx.Out, r *hx.Rand, thorough bool) {
 		desc3 := map[string]interface{}{"carrier": "inprocgrpc", "svc": svcName, "transport": transport, "decor_innermost_first": decor, "req": req}
 		o.Case("unary_inproc", fmt.Sprintf("UCase \"inproc\" %s \"U\" %s %s 0 %s %s %s", hx.Str(svcName), optTerm(transport), hx.List(decTerms), hx.Z(req), outcomeTerm(out, err), hx.List(l.take())), desc3)
 		// stream through the in-process channel; the caller uses a generic bidi descriptor
+		// (the in-process channel accepts a method name without its leading slash; interceptors are still told
+		// the full method name)
+		slash := "/"
 		runStream := func(ch grpc.ClientConnInterface) error {
-			cs, err := ch.NewStream(context.Background(), &grpc.StreamDesc{ClientStreams: true, ServerStreams: true}, "/"+svcName+"/"+kind)
+			cs, err := ch.NewStream(context.Background(), &grpc.StreamDesc{ClientStreams: true, ServerStreams: true}, slash+svcName+"/"+kind)
 			if err != nil {
 				return err
 			}
@@ -439,8 +442,12 @@ func runC16(o *hx.Out, r *hx.Rand, thorough bool) {
 			}
 			l.take()
 		}
+		if it%3 == 1 {
+			slash = ""
+		}
 		err = runStream(ipc)
-		desc4 := map[string]interface{}{"carrier": "inprocgrpc", "svc": svcName, "stream": kind, "transport": transport, "decor_innermost_first": decor}
+		desc4 := map[string]interface{}{"carrier": "inprocgrpc", "svc": svcName, "stream": kind, "transport": transport, "decor_innermost_first": decor, "method_name_given_without_leading_slash": slash == ""}
+		slash = "/"
 		o.Case("stream_inproc", fmt.Sprintf("SCase \"inproc\" %s %s %s %s %s %s 0 %s %s", hx.Str(svcName), hx.Str(kind), hx.B(flags[kind][0]), hx.B(flags[kind][1]),
 			optTerm(transport), hx.List(decTerms), outcomeTerm(&hx.Msg{}, err), hx.List(l.take())), desc4)
 
@@ -457,6 +464,14 @@ func runC16(o *hx.Out, r *hx.Rand, thorough bool) {
 			bp := r.Pick([]string{"", "/", "/foo/", "/api/v1", "/a/b/"})
 			if bp != "" {
 				opts = append(opts, httpgrpc.WithBasePath(bp))
+			}
+			// an error renderer among the options, before or after the interceptors: it decides how failures are
+			// rendered and nothing else
+			switch it % 4 {
+			case 0:
+				opts = append(opts, httpgrpc.ErrorRenderer(httpgrpc.DefaultErrorRenderer))
+			case 2:
+				opts = append([]httpgrpc.ServerOption{httpgrpc.ErrorRenderer(httpgrpc.DefaultErrorRenderer)}, opts...)
 			}
 			hs := httpgrpc.NewServer(opts...)
 			hs.RegisterService(both, svc)
